@@ -16,6 +16,7 @@ REGISTRY = {
     "C04": "ap",
     "C09": "heading",
     "C10": "filtering",
+    "C11": "idmatching",
     "C12": "sensing",
     "C14": "labels",
     "C15": "config",
